@@ -30,6 +30,7 @@ Definition agree (K : cfg) (ops : list op) : bool * bool :=
             | [], [] => true
             | RRow s :: x', RRow t :: y' => (s =? t) && leq x' y'
             | RDescr s :: x', RDescr t :: y' => (s =? t) && leq x' y'
+            | RDescrP s :: x', RDescrP t :: y' => (s =? t) && leq x' y'
             | RErr :: x', RErr :: y' => leq x' y'
             | _, _ => false end) d d') && eqb a' b'
       | _, _ => false end) (model_obs K ops) (spec_obs K ops)).
